@@ -9,7 +9,7 @@
    every statement holds for all of them. *)
 From Coq Require Import ZArith NArith List Bool String.
 From Verif Require Import lib.Dec model.NumText model.ExValues model.ExEval model.ExArgIndex gen.ArgIndex
-  proofs.ExEvalProofs proofs.ExEvalBudget proofs.ExArgIndexProofs.
+  proofs.ExEvalProofs proofs.ExEvalBudget proofs.ExArgIndexProofs model.ExLambda proofs.ExLambdaProofs.
 Import ListNotations.
 
 (* ---- (a) the modelled builtins never panic: ALL argument lists of ALL lengths, all panic classes ---- *)
@@ -496,3 +496,27 @@ Theorem c04_site_ok_sound_unbounded : forall s r sh total,
   forallb (guard_holds (total - sh)) (s_guards s) = true -> in_range s (total - sh) = true.
 Proof. exact site_ok_for_sound_unbounded. Qed.
 Print Assumptions c04_site_ok_sound_unbounded.
+
+(* ---- application of function VALUES (model/ExLambda.v: literals, +, variables, anonymous functions, application of
+   any expression; state-passing evaluator with fuel, the depth and call limits of f1d4764 as arguments).
+   An anonymous function can be applied to itself, so evaluation is not structurally recursive and, WITHOUT the
+   limits, does not terminate: ((f) => f(f))((f) => f(f)) exhausts every fuel (goflow before f1d4764: the process
+   died of stack overflow) ---- *)
+Theorem c04_anonymous_functions_without_limits_diverge_refuted : forall fuel st,
+  fst (leval_unlimited fuel st ENil omega) = LNoFuel.
+Proof. exact omega_never_returns. Qed.
+Print Assumptions c04_anonymous_functions_without_limits_diverge_refuted.
+
+(* WITH the limits (100 nested, 100000 total calls) every closed expression of the fragment returns a value (possibly
+   the error value) with fuel (100 + 2) * (height + 2): termination of the model evaluator is a theorem, not a
+   property of its definition *)
+Theorem c04_anonymous_function_evaluation_returns : forall e,
+  exists v st', leval_limited ((max_anon_function_depth + 2) * (height e + 2)) (LState 0 0) ENil e = (LRet v, st').
+Proof. exact limited_eval_returns. Qed.
+Print Assumptions c04_anonymous_function_evaluation_returns.
+
+(* ... and it never makes more than 100000 calls of anonymous functions (the bound on the work) *)
+Theorem c04_anonymous_function_calls_bounded : forall fuel e,
+  (calls (snd (leval_limited fuel (LState 0 0) ENil e)) <= max_anon_function_calls)%N.
+Proof. exact limited_eval_calls_bounded. Qed.
+Print Assumptions c04_anonymous_function_calls_bounded.
